@@ -29,6 +29,7 @@ func contents() map[string][][]driver.Value {
 			org = i % 4
 		}
 		m["events"] = append(m["events"], []driver.Value{fmt.Sprintf("e%d", i), org, sqlh.SmallStrings[i%3], i % 4})
+		m["tags"] = append(m["tags"], []driver.Value{i, sqlh.SmallStrings[i%3], sqlh.SmallStrings[i%4], sqlh.SmallStrings[i%5], i % 3, i % 4, i % 5})
 	}
 	return m
 }
